@@ -651,7 +651,7 @@ def make_histories(ctx):
     hs = [("corpus", h) for h in corpus()]
     hs += [("pairs", h) for h in mode_pair_histories(ctx.tier)]
     hs += [("fault", h) for h in fault_histories(rnd, ctx.tier)]
-    n_rand = 120 if ctx.tier == "quick" else 4000
+    n_rand = 120 if ctx.tier == "quick" else 2500
     hs += [("random", random_history(rnd)) for _ in range(n_rand)]
     return hs
 
@@ -734,6 +734,33 @@ def run(ctx: core.Ctx):
         ctx.log(f"spec conformance: {len(recs)} PySpark histories, {sum(len(r['ops']) for r in recs)} steps, {len(bad)} disagree")
     else:
         ctx.broken("spec-vs-pyspark", "oracle/c14_pyspark.jsonl is missing (re-record with oracle/record_c14.py)")
+    if ctx.tier == "thorough" and recs:
+        # re-record live (JVM, ~2-5 min) and compare with the vendored recording
+        live = f"/var/tmp/c14_live_{os.getpid()}.jsonl"
+        try:
+            rc, out, err = core.sh([core.PY, os.path.join(core.VERIF, "oracle", "record_c14.py"), live], timeout=1500,
+                                   env={**os.environ, "PYSPARK_PYTHON": core.PY})
+            if rc == 0 and os.path.exists(live):
+                now = [json.loads(x) for x in open(live) if x.strip()]
+
+                def canon(r):
+                    return json.dumps([[x[0], x[1], sorted(map(json.dumps, x[2]))] if x[0] == "rows" else
+                                       ["names", sorted(x[1])] if x[0] == "names" else x for x in r["obs"]])
+                drift = [i for i, (a, b) in enumerate(zip(recs, now)) if a["ops"] != b["ops"] or canon(a) != canon(b)]
+                if drift or len(now) != len(recs):
+                    ctx.broken("oracle-drift", f"live PySpark differs from oracle/c14_pyspark.jsonl on {len(drift)} histories "
+                               f"(first index {drift[:1]}); lengths {len(now)}/{len(recs)}")
+                ctx.coverage["pyspark_live_revalidated"] = len(now)
+                ctx.log(f"live PySpark re-recording: {len(now)} histories, {len(drift)} differ from the vendored recording")
+            else:
+                ctx.log("live PySpark not available (recorder failed to start): vendored recording used: " + (err or out)[-300:])
+                ctx.coverage["pyspark_live_revalidated"] = 0
+        except Exception as ex:  # noqa: BLE001 -- the JVM is optional
+            ctx.log(f"live PySpark not available: {type(ex).__name__}: {ex}")
+            ctx.coverage["pyspark_live_revalidated"] = 0
+        finally:
+            if os.path.exists(live):
+                os.remove(live)
     # ---- T3
     import logging
     logging.getLogger("sqlframe").setLevel(logging.ERROR)
@@ -801,13 +828,13 @@ def run(ctx: core.Ctx):
             n_dom_steps += dom and all_dom
             if proved and all_dom and not ms:
                 thm_fail.append({"history": [op_str(o) for o in ops], "step": i, "verdict": v})
-            if faithful and not (im_o and im_s):
+            off_model = faithful and not (im_o and im_s)
+            if off_model:
                 # the model is meant to be exact here, whether or not the spec is met
                 model_fail.append({"history": [op_str(o) for o in ops], "step": i, "op": op_str(ops[i]), "impl": obs[i],
                                    "snapshot": snaps[i], "verdict": v[8 * i:8 * i + 8], "exceptions": r["exc"][-3:],
-                                   "ops_json": ops})
-                break
-            n_model_exact += faithful
+                                   "ops_json": ops, "also_differs_from_spec": not (sp_o and sp_s)})
+            n_model_exact += faithful and not off_model
             if not (sp_o and sp_s):
                 if judged:
                     sig = signature(ops, obs, snaps, i)
@@ -816,6 +843,8 @@ def run(ctx: core.Ctx):
                     if sig not in dev_best or len(cand["ops"]) < len(dev_best[sig]["ops"]):
                         dev_best[sig] = cand
                 break      # after the first divergence from the spec the states differ: nothing further is judged
+            if off_model:
+                break
             n_judged += judged
             if ops[i][0] in ("rtable", "rpath") and obs[i][0] == "rows" and obs[i][2]:
                 nontriv = True
